@@ -14,6 +14,8 @@ Contract modelled (NumPy / SciPy documentation):
 * ``choice(a, size)``: every cell is an element of ``a`` at a fresh index
   (the explorer forks over the index values);
 * ``integers(low, high)``: a fresh symbolic integer;
+* ``permutation / shuffle / permuted``: a fresh permutation (the explorer forks
+  over it); ``permuted(axis=k)`` shuffles every slice along ``k`` independently;
 * the *global* generator is a separate stream whose state is whatever the
   harness says it is (``set_global``) until ``np.random.seed(s)`` replaces it
   by ``G(s)``; ``truncnorm.rvs(a, b, loc, scale, size) = loc + scale * Z`` with
@@ -117,6 +119,44 @@ class Gen(object):
         # what was chosen on this path (the harness may ask)
         self._rng.choices.append(([a[i] for i in idxs.flat], p))
         return a[idxs]
+
+    def _perm(self, n):
+        """a fresh uniformly distributed permutation of range(n): forks"""
+        idx = list(range(n))
+        out = []
+        for k in range(n):
+            out.append(idx.pop(self._index(n - k)))
+        return out
+
+    def permutation(self, x, axis=0):
+        if isinstance(x, (int, _np.integer)):
+            x = _np.arange(int(x))
+        a = _np.array(x, copy=True)
+        if axis != 0:
+            raise NotImplementedError
+        return a[self._perm(len(a))]
+
+    def shuffle(self, x, axis=0):
+        if axis != 0:
+            raise NotImplementedError
+        p = self._perm(len(x))
+        x[:] = _np.array(x, copy=True)[p]
+
+    def permuted(self, x, axis=None, out=None):
+        """NumPy: every slice along ``axis`` is shuffled independently of
+        the others (axis=None: the flattened array)"""
+        if out is not None:
+            raise NotImplementedError
+        a = _np.array(x, copy=True)
+        if axis is None:
+            flat = a.reshape(-1)
+            return flat[self._perm(len(flat))].reshape(a.shape)
+        b = _np.moveaxis(a, axis, 0).copy()
+        n = b.shape[0]
+        for idx in _np.ndindex(*b.shape[1:]):
+            key = (slice(None),) + idx
+            b[key] = b[key][self._perm(n)]
+        return _np.moveaxis(b, 0, axis)
 
     def integers(self, low, high=None, size=None, **k):
         if size is not None:
